@@ -5,6 +5,7 @@ package bkl
 func init() {
 	vRegister("HarnessC08_fuzz", HarnessC08_fuzz)
 	vRegister("HarnessC08_refs", HarnessC08_refs)
+	vRegister("HarnessC08_interp", HarnessC08_interp)
 	vRegister("HarnessC08_strings", HarnessC08_strings)
 	vRegister("HarnessC08_witness", HarnessC08_witness)
 }
@@ -234,6 +235,60 @@ func c08Refs(excludeKnown bool) {
 		vAssert("C08.cycle.reported", err != nil)
 	} else {
 		vCover("refs.acyclic")
+	}
+}
+
+// HarnessC08_interp: interpolation strings a and b with one to three
+// references each, to a, b or the plain leaf x, in any combination: every
+// reference cycle is reported as an error, and evaluation ends within the
+// engine's instruction budget (a string with several references back into
+// its own cycle must not multiply the work at every level).
+func HarnessC08_interp() {
+	names := []string{"a", "b", "x"}
+	doc := map[string]any{"x": "ok"}
+	edges := map[string][]string{}
+	for _, n := range names[:2] {
+		k := 1 + ndChoice(3)
+		s := `$"`
+		for i := 0; i < k; i++ {
+			t := names[ndChoice(3)]
+			edges[n] = append(edges[n], t)
+			if i > 0 {
+				s += "-"
+			}
+			s += "{" + t + "}"
+		}
+		doc[n] = s + `"`
+	}
+	vObserve("doc", doc)
+	reach := func(from, to string) bool {
+		seen := map[string]bool{}
+		var walk func(string) bool
+		walk = func(c string) bool {
+			for _, t := range edges[c] {
+				if t == to {
+					return true
+				}
+				if !seen[t] {
+					seen[t] = true
+					if walk(t) {
+						return true
+					}
+				}
+			}
+			return false
+		}
+		return walk(from)
+	}
+	cyclic := reach("a", "a") || reach("b", "b")
+	_, err := c06Eval(doc)
+	vObserve("err", err != nil)
+	if cyclic {
+		vCover("interp.cyclic")
+		vAssert("C08.interp.cycle.reported", err != nil)
+	} else {
+		vCover("interp.acyclic")
+		vAssert("C08.interp.accepted", err == nil)
 	}
 }
 
